@@ -14,6 +14,10 @@ mod c19;
 mod c20;
 
 #[cfg(feature = "db")]
+mod conc;
+#[cfg(feature = "db")]
+mod crash;
+#[cfg(feature = "db")]
 mod dbchecks;
 #[cfg(feature = "db")]
 mod dbgen;
@@ -21,6 +25,8 @@ mod dbgen;
 mod dbh;
 #[cfg(feature = "db")]
 mod model;
+#[cfg(feature = "db")]
+mod refs;
 
 use util::*;
 
@@ -41,6 +47,22 @@ fn main() {
         "c19" => c19::run(&args),
         "c20" => c20::run(&args),
         "noop" => Report::new("noop", "", "", 0),
+        #[cfg(feature = "db")]
+        "c15" => refs::run(&args),
+        #[cfg(feature = "db")]
+        "c14" => conc::run(&args),
+        #[cfg(feature = "db")]
+        "c14-growth-child" => {
+            conc::growth_child(&args);
+            return;
+        }
+        #[cfg(feature = "db")]
+        "c13" => crash::run(&args),
+        #[cfg(feature = "db")]
+        "c13-child" => {
+            crash::child(&args);
+            return;
+        }
         #[cfg(feature = "db")]
         "c04" => dbchecks::c04(&args),
         #[cfg(feature = "db")]
@@ -80,6 +102,22 @@ fn main() {
                     let mut pl = payload.clone();
                     pl["tier"] = v["tier"].clone();
                     dbchecks::replay(&pl, &mut rep, &args)
+                }
+                #[cfg(feature = "db")]
+                "C15" => refs::replay(payload, &mut rep, &args),
+                #[cfg(feature = "db")]
+                "C14" => {
+                    let mut pl = payload.clone();
+                    pl["seed"] = v["seed"].clone();
+                    conc::replay(&pl, &mut rep, &args)
+                }
+                #[cfg(feature = "db")]
+                "C13" => {
+                    let mut pl = payload.clone();
+                    if pl["tier"].is_null() {
+                        pl["tier"] = v["tier"].clone();
+                    }
+                    crash::replay(&pl, &mut rep, &args)
                 }
                 _ => rep.notes.push(format!("no replay handler for {prop}")),
             }
